@@ -4777,7 +4777,7 @@ class FST:
         <Module ROOT 0,0..0,7>
         """
 
-        fln, fcol, fend_ln, fend_col = self.loc
+        fln, fcol, fend_ln, fend_col = self.bloc  # bloc so that decorators are searched
 
         if ((((same_ln := fln == ln) and fcol <= col) or fln < ln)
             and (((same_end_ln := fend_ln == end_ln) and fend_col >= end_col) or fend_ln > end_ln)
@@ -4794,7 +4794,7 @@ class FST:
 
         while True:
             for f in self.walk('loc', self_=False):
-                fln, fcol, fend_ln, fend_col = f.loc
+                fln, fcol, fend_ln, fend_col = f.bloc
 
                 if fend_ln < ln or (fend_ln == ln and fend_col <= col):
                     continue
